@@ -100,10 +100,17 @@ def run_job(job):
             out.never(ctx, z3.And(const, got.z != 0), wit, 'constant vector with non-zero score')
             same = z3.And([X[i] == Y[i] for i in range(n)])
             out.never(ctx, z3.And(same, got.z != st['HY']), wit, 'self score != entropy')
-    return hutil.run_symx(job, setup, body)
+    return hutil.run_symx(job, setup, body, wit=wit)
 
 
 def replay(w):
+    try:
+        return _replay(w)
+    except Exception as e:  # the real build raised
+        return {'reproduced': True, 'signature': f'C01:raises-{type(e).__name__}', 'what': f'the real estimator raises {type(e).__name__}: {str(e)[:200]} on {({k: v for k, v in w.items() if k in ("Y", "X", "r", "corr", "Y2", "map")})}'}
+
+
+def _replay(w):
     Y, X = w['Y'], w['X']
     got = KM.real_mi(Y, X)
     exp = KM.c_mi(Y, X)
